@@ -53,7 +53,10 @@ type writeSet struct {
 	deep  map[*types.Var]bool // written through (x.f = …, x[i] = …, *x = …, x.Set(…), f(x) with f writing)
 }
 
-func (t *tr) writesOf(n ast.Node) writeSet {
+func (t *tr) writesOf(n ast.Node) writeSet { return t.writesOfOpt(n, false) }
+
+// writesOfOpt: with keepDeclared the variables declared inside n stay in the set (function-level analysis)
+func (t *tr) writesOfOpt(n ast.Node, keepDeclared bool) writeSet {
 	ws := writeSet{map[*types.Var]bool{}, map[*types.Var]bool{}, map[*types.Var]bool{}}
 	declared := map[*types.Var]bool{}
 	add := func(e ast.Expr) { // assignment target
@@ -117,6 +120,9 @@ func (t *tr) writesOf(n ast.Node) writeSet {
 		}
 		return true
 	})
+	if keepDeclared {
+		return ws
+	}
 	for v := range declared {
 		delete(ws.vars, v)
 		delete(ws.whole, v)
@@ -145,6 +151,9 @@ func (t *tr) callWrites(c *ast.CallExpr) []ast.Expr {
 	if fn.Pkg() != nil && fn.Pkg().Path() == "encoding/hex" && fn.Name() == "Decode" {
 		return []ast.Expr{c.Args[0]}
 	}
+	if fn.Pkg() != nil && fn.Pkg().Path() == "encoding/binary" && strings.HasPrefix(fn.Name(), "Put") {
+		return []ast.Expr{c.Args[0]}
+	}
 	sig := fn.Type().(*types.Signature)
 	if sig.Recv() != nil && (isBigLib(sig.Recv().Type()) || isElem(sig.Recv().Type())) && !translatedHere(t, fn) {
 		sel := c.Fun.(*ast.SelectorExpr)
@@ -157,6 +166,9 @@ func (t *tr) callWrites(c *ast.CallExpr) []ast.Expr {
 			return nil
 		}
 		if isBigLib(sig.Recv().Type()) {
+			if name == "FillBytes" {
+				return []ast.Expr{c.Args[0]}
+			}
 			if _, ok := bigPure[name]; ok {
 				return nil
 			}
@@ -532,6 +544,12 @@ func (t *tr) assign(x *ast.AssignStmt) {
 	if len(x.Lhs) == len(x.Rhs) {
 		if len(x.Lhs) > 1 {
 			// parallel assignment: evaluate all right sides first
+			for _, l := range x.Lhs {
+				if _, ok := l.(*ast.Ident); !ok {
+					// Go evaluates index and pointer operands of the left side before any assignment
+					t.fail(x, "parallel assignment to an element or field")
+				}
+			}
 			var vals []string
 			for _, r := range x.Rhs {
 				tmp := t.fresh("v")
@@ -544,6 +562,7 @@ func (t *tr) assign(x *ast.AssignStmt) {
 			return
 		}
 		l, r := x.Lhs[0], x.Rhs[0]
+		t.checkAlias(x, l, r)
 		// nil-able targets
 		if id, ok := l.(*ast.Ident); ok {
 			var lv *types.Var
@@ -610,6 +629,37 @@ func (t *tr) assign(x *ast.AssignStmt) {
 		return
 	}
 	t.fail(x, "unsupported assignment shape")
+}
+
+// checkAlias: `x := <path>` makes x a second name for a pointer or slice that lives in another variable; with value
+// semantics a later write through x would be lost for the other name, so such a function is not translated
+func (t *tr) checkAlias(n ast.Node, l, r ast.Expr) {
+	id, ok := l.(*ast.Ident)
+	if !ok || id.Name == "_" {
+		return
+	}
+	lv, _ := t.info.Defs[id].(*types.Var)
+	if lv == nil {
+		lv = t.varOf(id)
+	}
+	if lv == nil || !t.fnDeep[lv] {
+		return
+	}
+	switch types.Unalias(lv.Type()).Underlying().(type) {
+	case *types.Pointer, *types.Slice, *types.Map:
+	default:
+		return
+	}
+	switch rr := ast.Unparen(r).(type) {
+	case *ast.Ident, *ast.SelectorExpr, *ast.IndexExpr, *ast.SliceExpr, *ast.StarExpr:
+		if rv := t.rootVar(rr); rv != nil && rv != lv {
+			t.fail(n, "%s is a second name for storage reachable from %s and is written through", lv.Name(), rv.Name())
+		}
+	case *ast.UnaryExpr:
+		if rv := t.rootVar(rr); rr.Op == token.AND && rv != nil && rv != lv {
+			t.fail(n, "%s points into %s and is written through", lv.Name(), rv.Name())
+		}
+	}
 }
 
 func (t *tr) binaryWithTypes(be *ast.BinaryExpr, ty types.Type) string {
@@ -723,8 +773,12 @@ func (t *tr) checkBound(node ast.Node, ws writeSet, boundExprs []ast.Expr) {
 				bad := false
 				ast.Inspect(be, func(m ast.Node) bool {
 					if c, ok := m.(*ast.CallExpr); ok {
-						if id, ok := c.Fun.(*ast.Ident); ok && id.Name == "len" {
-							return false
+						if id, ok := c.Fun.(*ast.Ident); ok && id.Name == "len" && len(c.Args) == 1 {
+							// an element-wise write keeps the length of the variable itself, not of a field,
+							// an element or the target of a pointer inside it
+							if _, plain := ast.Unparen(c.Args[0]).(*ast.Ident); plain {
+								return false
+							}
 						}
 					}
 					if id, ok := m.(*ast.Ident); ok && t.varOf(id) == v {
@@ -938,6 +992,14 @@ func (t *tr) rangeStmt(x *ast.RangeStmt, rest []ast.Stmt, k cont) string {
 	ws := t.writesOf(x.Body)
 	if rv := t.rootVar(x.X); rv != nil && ws.vars[rv] {
 		t.fail(x, "range collection written in the body")
+	}
+	if id, ok := x.Value.(*ast.Ident); ok && id.Name != "_" {
+		if v, ok := t.info.Defs[id].(*types.Var); ok && t.fnDeep[v] {
+			switch types.Unalias(v.Type()).Underlying().(type) {
+			case *types.Pointer, *types.Slice, *types.Map:
+				t.fail(x, "range value %s is written through (the write reaches the collection in Go)", v.Name())
+			}
+		}
 	}
 	return t.loopGeneric(x, iv, "(0 : Int)", "(I3.Go.len "+coll+")", bind, x.Body, rest, k, nil)
 }
